@@ -109,7 +109,7 @@ def coq_make(targets, timeout=900):
     """make -k the given .vo targets.  Returns (ok, log)"""
     with Lock('coq'):
         coq_project()
-        rc, out = sh(['timeout', str(timeout), 'make', '-k', '-j%d' % NCPU] + list(targets), timeout=timeout + 30, cwd=COQ)
+        rc, out = sh(['timeout', str(timeout), 'make', '-k', '-j%d' % NCPU, 'COQC=timeout 600 coqc'] + list(targets), timeout=timeout + 30, cwd=COQ)
     return rc == 0, out
 
 
